@@ -42,7 +42,7 @@ def plan(tier, seed):
             {'named': '2DPGA'}, {'p': 1, 'q': 1, 'r': 1}, {'p': 3, 'q': 0, 'r': 0, 'opts': {'wrapper': 'identity'}}]
     if tier == 'thorough':
         cfgs += gen.sig_orderings(2, 3)[::2] + [gen.random_custom_cfg(rng, 3) for _ in range(6)]
-    n = (50, 30, 80) if tier == 'quick' else (800, 500, 1500)
+    n = (200, 120, 320) if tier == 'quick' else (800, 500, 1500)
     U = []
     reps = 2 if tier == 'quick' else 4
     for c in cfgs:
